@@ -33,10 +33,10 @@ var funcCtx = map[string]int{
 	"newConn": ctxInit, "NewServer": ctxInit, "NewMux": ctxInit, "newResponseWriter": ctxInit, "td.Start": ctxInit, "td.VerifNewDirectory": ctxInit,
 	"Mux.Bind": ctxSetup, "Mux.Unbind": ctxSetup, "Mux.Search": ctxSetup, "Mux.ExtendedOperation": ctxSetup, "Mux.Modify": ctxSetup,
 	"Mux.Add": ctxSetup, "Mux.Delete": ctxSetup, "Mux.DefaultRoute": ctxSetup, "Server.Router": ctxSetup,
-	"Server.Run": ctxRun,
+	"Server.Run":         ctxRun,
 	"conn.serveRequests": ctxConn, "conn.readRequest": ctxConn, "conn.readPacket": ctxConn, "conn.initConn": ctxConn, "conn.close": ctxConn,
 	"Request.StartTLS": ctxConn,
-	"Mux.serve": ctxReq, "ResponseWriter.Write": ctxReq, "Request.ConnectionID": ctxReq,
+	"Mux.serve":        ctxReq, "ResponseWriter.Write": ctxReq, "Request.ConnectionID": ctxReq,
 	"Server.Stop": ctxAPI, "Server.Ready": ctxAPI,
 }
 
